@@ -20,16 +20,30 @@ RULE = (
     "variant in which two equal disjoint subtrees are one shared object; per tree all (prune, filter) pairs of position "
     "subsets (all 4^k for k<=3 distinct positions, else prune in {none, all, singletons, pairs} x filter in {all, none, "
     "singletons, =prune, complement}); each executed for dfs pre-order, dfs post-order and bfs, plus gather over class "
-    "sets. states = trees (incl. shared variants); transitions = traversal executions, each compared with the "
+    "sets; re-entrancy: all 9 ordered pairs of {dfs, dfs bottom-up, bfs} advanced alternately after an abandoned traversal, and complete "
+    "traversals inside the loop body of each. states = trees (incl. shared variants); transitions = traversal executions, each compared with the "
     "reference; non-trivial = distinct (tree, prune, filter) cases with >= 2 positions and a non-empty prune set"
 )
 ASSUMPTIONS = [
-    "predicates are pure functions of the yielded (node, parent, field, index)",
+    "predicates are pure functions of the yielded (node, parent, field, index); they are handed over as callable objects that are falsy in a boolean context",
     "a position in a tree with shared objects is identified by (node object, parent object, field, index)",
 ]
 N = {"quick": 4, "thorough": 5}
 SHARE_N = {"quick": 4, "thorough": 5}
 NSHARDS = 16
+
+
+class FalsyPredicate:
+    """A callable predicate whose truth value is False."""
+
+    def __init__(self, fn):
+        self.fn = fn
+
+    def __call__(self, x):
+        return self.fn(x)
+
+    def __bool__(self) -> bool:
+        return False
 
 
 def plan(tier, seed):
@@ -83,12 +97,9 @@ def check_tree(U, d, share, rec: Rec, light=False, route="direct"):
         return (id(info.node), id(info.parent), info.field.name, info.findex)
 
     def mk(S, log):
-        def pred(info):
-            k = ikey(info)
-            log.append(k)
-            return k in S
-
-        return pred
+        # the predicate is a callable OBJECT that is falsy in a boolean context (think of a recording predicate derived from
+        # list): "no predicate given" is None, never "a predicate that happens to be falsy"
+        return FalsyPredicate(lambda info: (log.append(ikey(info)), ikey(info) in S)[1])
 
     def run(fn, gen, exp_paths, pr, flog, plog):
         rec.count("transitions")
@@ -129,6 +140,44 @@ def check_tree(U, d, share, rec: Rec, light=False, route="direct"):
     run("dfs", root.dfs(), R.pre_order(U, d, nop, allp), frozenset(), None, None)
     run("dfs-bu", root.dfs(bottom_up=True), R.post_order(U, d, nop, allp), frozenset(), None, None)
     run("bfs", root.bfs(), R.level_order(U, d, nop, allp), frozenset(), None, None)
+
+    # re-entrancy: two traversals of the same tree advanced alternately, an abandoned traversal before a complete one, and
+    # complete inner traversals (of the yielded node and of the root) between the steps of an outer one
+    if len(keys) >= 2 and route == "direct":
+        makers = {"dfs": (lambda: root.dfs(), [pkey[p] for p in R.pre_order(U, d, nop, allp)]),
+                  "dfs-bu": (lambda: root.dfs(bottom_up=True), [pkey[p] for p in R.post_order(U, d, nop, allp)]),
+                  "bfs": (lambda: root.bfs(), [pkey[p] for p in R.level_order(U, d, nop, allp)])}
+        for (na, (ma, ea)), (nb, (mb, eb)) in itertools.product(makers.items(), repeat=2):
+            rec.count("transitions"); rec.count("traces"); rec.count("evaluations")
+            ga, gb = ma(), mb()
+            abandoned = mb()
+            next(abandoned, None)
+            del abandoned
+            oa, ob = [], []
+            live = [(ga, oa), (gb, ob)]
+            while live:
+                for g, o in list(live):
+                    x = next(g, None)
+                    if x is None:
+                        live.remove((g, o))
+                    else:
+                        o.append(ikey(x))
+            if oa != ea or ob != eb:
+                rec.violation("C05|interleaved|sequence", dict(case, traversals=[na, nb]), f"{na} and {nb} advanced alternately: a sequence differs from the one each yields alone",
+                              expected=[[_pp(paths, pkey, k) for k in ea], [_pp(paths, pkey, k) for k in eb]],
+                              observed=[[_pp(paths, pkey, k) for k in oa], [_pp(paths, pkey, k) for k in ob]])
+        for na, (ma, ea) in makers.items():
+            rec.count("transitions"); rec.count("traces"); rec.count("evaluations")
+            oa = []
+            for x in ma():
+                oa.append(ikey(x))
+                inner = [len(list(x.node.dfs())), len(list(root.bfs())), len(list(x.node.gather(zoo.ASTNode)))]
+                if inner[1] != len(makers['bfs'][1]) or inner[0] != inner[2]:
+                    rec.violation("C05|nested|sequence", dict(case, traversals=[na]), "a complete traversal run inside the loop body of another one yields a different number of positions")
+            if oa != ea:
+                rec.violation("C05|nested|sequence", dict(case, traversals=[na]), f"{na}: the sequence changes when complete traversals run inside its loop body",
+                              expected=[_pp(paths, pkey, k) for k in ea], observed=[_pp(paths, pkey, k) for k in oa])
+        rec.outcome("re-entrancy")
 
     if len(keys) <= 3:
         subs = [frozenset(s) for k in range(len(keys) + 1) for s in itertools.combinations(keys, k)]
@@ -245,6 +294,8 @@ def run_shard(cfg):
     from pyoak import config as _config
 
     _config.RUNTIME_TYPE_CHECK = cfg["k"] % 3 == 2
+    _config.TRACE_LOGGING = cfg["k"] % 3 == 1   # the other switch a user may turn on; it only adds log records
+    rec.extra["trace_logging_in_shard_1_mod_3"] = True
     rec.extra["runtime_type_check_in_shard_2_mod_3"] = True
     rec.extra['first_use'] = zoo.warm_up(cfg['k'])
     U = zoo.universe(zoo.U_TRAV)
